@@ -152,3 +152,25 @@ Proof. reflexivity. Qed.
 Theorem riff_remove_refuted :
   exists cs b, b <> [] /\ riff_payload (riff_write_children (riff_write_children cs b) []) = ROk b.
 Proof. exists [RData [100; 97; 116; 97]%N [1; 2]%N], [7; 7; 7]%N. split; [discriminate| reflexivity]. Qed.
+
+(* ------------------------------------------------------------------ GIF object locations of a written asset *)
+Theorem gif_loc_written bs b plen total :
+  let w := gwrite GF bs b in
+  let off := (plen + N.of_nat (goff GF bs))%N in
+  let ln := N.of_nat (glen GF b) in
+  gif_loc_blocks plen w total
+  = [(0%N, (off - 1)%N, KOther); (off, ln, KCai); ((off + ln)%N, (total - (off + ln))%N, KOther)].
+Proof.
+  cbn zeta. unfold gif_loc_blocks, gwrite. change (mk GF b) with [gmk b].
+  pose proof (sl_strip_clean _ _ gif_marks bs) as Hc. apply (sl_clean_iff _ _ gif_marks) in Hc.
+  pose proof (ins_bound _ _ _ gif_laws bs) as Hi.
+  change (seg GF) with gblock in *.
+  rewrite (find_index_insert is_c2pa_block _ _ (gmk b) Hc Hi (is_c2pa_gmk b)).
+  assert (Hnth : nth (ins GF bs) (insert_at (ins GF bs) [gmk b] (strip GF bs)) (GBlock 0 [] None) = gmk b).
+  { unfold insert_at. rewrite app_nth2; rewrite (firstn_length_le _ Hi); [|lia]. rewrite Nat.sub_diag. reflexivity. }
+  assert (Hfn : firstn (ins GF bs) (insert_at (ins GF bs) [gmk b] (strip GF bs)) = firstn (ins GF bs) (strip GF bs)).
+  { unfold insert_at. rewrite firstn_app_le by (rewrite (firstn_length_le _ Hi); lia). rewrite firstn_firstn, Nat.min_id. reflexivity. }
+  change (seg GF) with gblock in *. rewrite Hnth, Hfn.
+  unfold goff, glen, encs. change (mk GF b) with [gmk b]. cbn [map concat enc gif_format]. rewrite app_nil_r.
+  reflexivity.
+Qed.
